@@ -35,6 +35,9 @@ def main(argv):
         if not os.path.isdir(d) or (names and not any(n in sid for n in names)):
             continue
         meta = json.load(open(os.path.join(d, "meta.json")))
+        if meta.get("obsolete"):
+            print(f"[{sid}] skipped: {meta['obsolete']}")
+            continue
         scratch = tempfile.mkdtemp(prefix="vf_seed_")
         try:
             src = os.path.join(scratch, "repo")
